@@ -274,10 +274,30 @@ pub fn decode_seq(t: &mut Tape, max_fns: usize, max_ops: usize) -> SeqCase {
     let large = t.chance(1, 16);
     let mut hot = 0usize;
     if large {
+        t.enable_tail();
         let k = if t.chance(1, 10) { 257 + t.below(44) } else { 65 + t.below(76) };
         ops.push(Op::AddFns(k));
         n = k;
         hot = 3 + t.below(6);
+        if t.chance(1, 2) {
+            // a hub: the first hot function gets an edge to the second one and then
+            // 17..=40 further successors, so that later repeats / reversals of the
+            // early edge meet long adjacency lists
+            let h1 = n / hot;
+            ops.push(if t.chance(1, 2) { Op::Logic(0, h1) } else { Op::Contains(0, h1) });
+            let fan = 17 + t.below(24);
+            let mut x = 1usize;
+            while x <= fan {
+                if t.chance(1, 3) && x + 2 <= fan {
+                    let pairs = vec![(0, x), (0, x + 1), (0, x + 2)];
+                    ops.push(if t.chance(1, 2) { Op::LogicEdges(pairs) } else { Op::ContainsEdges(pairs) });
+                    x += 3;
+                } else {
+                    ops.push(if t.chance(1, 2) { Op::Logic(0, x) } else { Op::Contains(0, x) });
+                    x += 1;
+                }
+            }
+        }
     }
     let max_fns = if large { n } else { max_fns };
     for _ in 0..len {
@@ -340,7 +360,7 @@ impl Check for SeqCheck {
         "seq:C16".into()
     }
     fn tape_lens(&self) -> Vec<usize> {
-        vec![self.max_ops * 8 + 4]
+        vec![self.max_ops * 8 + 140]
     }
     fn run_case(&self, tapes: &[Vec<u16>], want_decoded: bool) -> CaseReport {
         let mut t = Tape::new(&tapes[0]);
